@@ -474,9 +474,10 @@ func (inst *InstCall) LLString() string {
 	if inst.AddrSpace != 0 {
 		fmt.Fprintf(buf, " %s", inst.AddrSpace)
 	}
-	// Use function signature instead of return type for variadic functions.
+	// Use function signature instead of return type for variadic functions, and
+	// for callees whose type was given by name (`%fn = type void ()`).
 	calleeType := inst.Type()
-	if sig := inst.Sig(); sig.Variadic {
+	if sig := inst.Sig(); sig.Variadic || len(sig.TypeName) > 0 {
 		calleeType = sig
 	}
 	fmt.Fprintf(buf, " %s %s(", calleeType, inst.Callee.Ident())
